@@ -653,8 +653,7 @@ class PersistentTensorDict(TensorDictBase):
         # if we end up here, we can clear the graph associated with this td
         self._is_locked = False
 
-        self._is_shared = False
-        self._is_memmap = False
+        self._unset_shared_memmap()
 
         sub_tds = []
         for _td in self._nested_tensordicts.values():
